@@ -165,6 +165,9 @@ def restrict(feat, ctx):
 
 def leaf_block(feat):
     opts = [para_lines(feat), para_lines(feat), para_lines(feat, 1, 60)]
+    if "escape" in feat:
+        # paragraphs that begin with an escaped block marker (the escape is what keeps them paragraphs)
+        opts.append(st.sampled_from([["1\\." + GAP + "not" + GAP + "a" + GAP + "list"], ["2025\\." + GAP + "That" + GAP + "was" + GAP + "it."], ["\\-" + GAP + "dash"], ["\\#" + GAP + "hash"], ["\\>" + GAP + "gt"]]))
     if "atx" in feat:
         opts.append(st.tuples(st.integers(1, 6), para_tokens(feat - {"hardbreak"}, 1, 8), st.sampled_from(["", " #", " ###"])).map(lambda t: ["#" * t[0] + " " + " ".join(t[1]) + t[2]]))
     if "setext" in feat:
